@@ -297,6 +297,16 @@ pub fn run(opts: &Opts) -> Report {
         ("[{'a': 1}.b]".into(), "dyn([{'a': 1}.b])".into()),
         ("[[1].nosuch(2)]".into(), "dyn([[1].nosuch(2)])".into()),
     ];
+    // nesting up to the deepest the parser accepts: the literal form (evaluated by the compiler) and the variable form
+    // (evaluated at run time) agree, so the two evaluations have the same depth limit
+    for k in [1usize, 8, 16, 24, 28, 29, 30, 31] {
+        for (f, var, lit) in [("int", "x", "7"), ("dyn", "l", "[1, 2, 3]"), ("string", "s", "'héllo'"), ("abs", "x", "7")] {
+            let nest = |a: &str| format!("{}{}{}", format!("{}(", f).repeat(k), a, ")".repeat(k));
+            pairs.push((nest(var), nest(lit)));
+        }
+        let par = |x: &str| format!("{}{}{}", "[".repeat(k), x, "]".repeat(k));
+        pairs.push((par("x"), par("7")));
+    }
     for c in cases.iter().take(if opts.thorough { 20_000 } else { 2_500 }) {
         // generated macro expressions: the generator names loop variables v0, v1, ..; rename v0 to a function name
         if c.src.contains("(v0,") && !c.src.contains("size") && !c.src.contains("tick(v0") {
@@ -312,7 +322,7 @@ pub fn run(opts: &Opts) -> Report {
     for (a, b) in pairs.iter() {
         let binds = std_bindings(0);
         let (ra, pa) = run_variant(a, &binds);
-        let (rb, _) = run_variant(b, &binds);
+        let (rb, pb) = run_variant(b, &binds);
         rep.count(Some(b));
         rep.bump("renaming-pairs");
         // model comparison of both members: value-or-failure + call log, and the bytecode (what was folded)
@@ -321,7 +331,8 @@ pub fn run(opts: &Opts) -> Report {
             queue_bytecode(&mut pending, src);
             rep.bump("renaming-pairs:model-requests");
         }
-        if pa.is_none() {
+        // (a member the parser rejects, e.g. for its nesting depth, is not a program: nothing to compare)
+        if pa.is_none() || pb.is_none() {
             continue;
         }
         if ra != rb {
@@ -330,7 +341,10 @@ pub fn run(opts: &Opts) -> Report {
     }
     // ---- clock-dependent calls are never frozen
     // (source, is the result fine-grained enough to differ after a few milliseconds)
-    let clock_srcs: [(&str, bool); 24] = [
+    let clock_srcs: [(&str, bool); 33] = [
+        // the clock reached through a method name (not among the identifiers the program reads)
+        ("'abc'.now()", true), ("[1].now()", true), ("string('abc'.now())", true), ("[1].map(v, 'a'.now())[0]", true), ("size(['a'.now()])", false),
+        ("f'{[1].now()}'", true), ("{'k': 'a'.now()}.k", true), ("true ? 'a'.now() : timestamp(0)", true), ("max('a'.now(), timestamp(0))", true),
         ("now()", true), ("timestamp()", true), ("[now()]", true), ("f'{now()}'", true), ("now() + duration(1)", true), ("[1].map(v, now())[0]", true),
         ("timestamp() == timestamp(0)", false), ("{'t': now()}.t", true), ("true ? now() : timestamp(0)", true), ("string(now())", true), ("(now() > timestamp(0)) ? now() : now()", true),
         // a clock call nested inside the arguments of an otherwise closed call
@@ -346,7 +360,9 @@ pub fn run(opts: &Opts) -> Report {
             Err(e) => rep.oracle_fail(src, &e, "program", "a clock expression must compile"),
             Ok(p) => {
                 let code = code_wire(&p);
-                let has_call = code.contains(&format!("PUSH id:{} CALL:0", hex(b"now"))) || code.contains(&format!("PUSH id:{} CALL:0", hex(b"timestamp")));
+                let has_call = code.contains(&format!("PUSH id:{} CALL:0", hex(b"now")))
+                    || code.contains(&format!("PUSH id:{} CALL:0", hex(b"timestamp")))
+                    || code.contains(&format!("PUSH id:{} ACCESS CALL:0", hex(b"now")));
                 if !has_call {
                     rep.oracle_fail(src, &code, "bytecode containing CALL now / timestamp", "a clock-dependent call was evaluated by the compiler");
                 }
